@@ -9,6 +9,8 @@ pub mod c06;
 pub mod c13;
 pub mod c14;
 pub mod c07;
+pub mod c15;
+pub mod c17;
 pub mod c20;
 
 pub fn run(prop: &str, ctx: &mut Ctx) -> Option<Report> {
@@ -21,6 +23,8 @@ pub fn run(prop: &str, ctx: &mut Ctx) -> Option<Report> {
         "C13" => Some(c13::run(ctx)),
         "C14" => Some(c14::run(ctx)),
         "C07" => Some(c07::run(ctx)),
+        "C15" => Some(c15::run(ctx)),
+        "C17" => Some(c17::run(ctx)),
         "C20" => Some(c20::run(ctx)),
         _ => None,
     }
